@@ -201,6 +201,30 @@ CHECKS["C03"] = dict(
 
 PENDING = {}  # property id -> reason, for properties not claimed
 
+# rules of seed round 8 (technique fragments appended to the entries above)
+ROUND8 = {
+    "C01": "shared instances of C03.T4 (compiled operators are applied on every operator path)",
+    "C02": "def-use rule: every visited condition value reaches the `_?_:_` function (no truthiness-driven loop over else-if links)",
+    "C03": "path rule T4: on a path with an operator child the generated text is built, never taken over from a (grand)child; shared instances of C12.N3",
+    "C04": "clone chain Activation/NameContainer/Referent followed by name; copy.deepcopy in the library effect table; set-up exclusion limited to explicit rejections",
+    "C05": "memo-key completeness counts an object handed on as a whole as a dependency on all of its state",
+    "C06": "the dump machine forks on predicates over child text and judges both outcomes",
+    "C07": "taint rule: cooked bytes are not the encoding of the string decoder's result",
+    "C10": "shared instances of C14.F8 (error arguments never reach a conversion function)",
+    "C11": "override rule: astimezone/utcoffset inherited or returned from the inherited conversion on every path",
+    "C12": "shared instances of C05.H3 (clone shares no Referent)",
+    "C14": "call-site classification of the argument list (exprlist rule vs raw children) against element scans; closure-captured result containers in the macro builders",
+    "C15": "path rule: no non-empty container returned unconverted under a members-only test; shared instance of C08.P4",
+    "C17": "path rule: network operand decided through supernet_of/subnet_of, not from one end",
+    "C18": "operands built as text at value_to_cel call sites parsed (holes as atoms) with cel.lark and ranked",
+    "C19": "shared instances of C10.R1/R3 (text arms of int())",
+    "C20": "shared instances of C15.J3 (encoder recursion)",
+}
+for _k, _v in ROUND8.items():
+    if _k in CHECKS and _v not in CHECKS[_k]["technique"]:
+        CHECKS[_k]["technique"] += "; " + _v
+
+
 def main():
     props = [json.loads(l)["id"] for l in (VERIF / "properties.jsonl").read_text().splitlines() if l.strip()]
     checks = []
